@@ -263,8 +263,14 @@ func (state *RuntimeState) webauthnAuthFinish(w http.ResponseWriter, r *http.Req
 		return
 	}
 
+	// The challenge is one-time: the request that presents an answer takes it
+	// out of the shared map, so that the same answer presented again (even at
+	// the same moment) finds none.
 	state.Mutex.Lock()
 	localAuth, ok := state.localAuthData[authData.Username]
+	if ok {
+		delete(state.localAuthData, authData.Username)
+	}
 	state.Mutex.Unlock()
 	if !ok {
 		http.Error(w, "challenge missing", http.StatusBadRequest)
@@ -350,9 +356,6 @@ func (state *RuntimeState) webauthnAuthFinish(w http.ResponseWriter, r *http.Req
 
 	// TODO: disinguish better between the two protocols or just use one
 	//metricLogAuthOperation(getClientType(r), proto.AuthTypeU2F, true)
-	state.Mutex.Lock()
-	delete(state.localAuthData, authData.Username)
-	state.Mutex.Unlock()
 
 	//TODO: distinguish here u2f vs webauthn
 	eventNotifier.PublishAuthEvent(eventmon.AuthTypeU2F, authData.Username)
